@@ -22,9 +22,12 @@ git -C $R apply $S/patch.diff
 ( cd $R && cargo test --offline 2>&1 | grep -E "^test result|error(\[|:)" ) > $E/suite.txt 2>&1
 if grep -q "FAILED\|error" $E/suite.txt || ! grep -q "35 passed" $E/suite.txt; then echo "$ID SUITE-FAILS-WITH-CHANGE" | tee -a $OUT; cat $E/suite.txt >> $OUT; fi
 echo "suite with change: $(grep -c 'test result: ok' $E/suite.txt) ok result lines" >> $OUT
+# demos that use the simulated clock need the guard
+DEMOFLAGS=""
+grep -q "mini_moka_verif\|VerifClock" $S/demo.rs && DEMOFLAGS="--cfg mini_moka_verif"
 # demo with change
 cp $S/demo.rs $R/tests/seeded_demo.rs
-( cd $R && timeout 600 cargo test --offline --test seeded_demo 2>&1 | tail -15 ) > $E/demo_with.txt 2>&1
+( cd $R && RUSTFLAGS="$DEMOFLAGS" timeout 600 cargo test --offline --test seeded_demo 2>&1 | tail -15 ) > $E/demo_with.txt 2>&1
 WITH=$(grep -E "^test result" $E/demo_with.txt | head -1)
 [ -z "$WITH" ] && WITH="(no result line: $(tail -2 $E/demo_with.txt | tr '\n' ' '))"
 # checks against the changed tree
@@ -44,7 +47,7 @@ done
 # demo without change
 git -C $R reset -q --hard
 cp $S/demo.rs $R/tests/seeded_demo.rs
-( cd $R && timeout 600 cargo test --offline --test seeded_demo 2>&1 | tail -15 ) > $E/demo_without.txt 2>&1
+( cd $R && RUSTFLAGS="$DEMOFLAGS" timeout 600 cargo test --offline --test seeded_demo 2>&1 | tail -15 ) > $E/demo_without.txt 2>&1
 WITHOUT=$(grep -E "^test result" $E/demo_without.txt | head -1)
 rm -f $R/tests/seeded_demo.rs
 echo "demo with change:    $WITH" >> $OUT
